@@ -10,7 +10,7 @@ from common import ScriptedUniform, use_repo_sources
 use_repo_sources()
 
 from build import build_trigger  # noqa: E402
-from vclock import VLoop, drain, instant_of_ns, ns_of_instant, run_virtual, vsleep  # noqa: E402
+from vclock import VLoop, drain, drain_tasks, instant_of_ns, ns_of_instant, run_virtual, vsleep  # noqa: E402
 
 
 class HarnessError(BaseException):
@@ -86,10 +86,11 @@ def parse_csv(s: str) -> list[int]:
 
 
 class SchedImpl:
-    def __init__(self, executor: str, epoch_ns: int, specs: dict, seed: int = 0) -> None:
+    def __init__(self, executor: str, epoch_ns: int, specs: dict, seed: int = 0, tz: str = 'UTC') -> None:
         """`specs`: job handle -> python tuple of the producer for `at` jobs (the op line carries the S-expr)"""
         self.executor = executor
         self.seed = seed
+        self.tz = tz
         self.epoch_ns = epoch_ns
         self.base = 0                 # trace instants are absolute nanoseconds
         self.specs = specs
@@ -125,7 +126,10 @@ class SchedImpl:
         d = c.next_run_datetime
         if d is None:
             return '-'
-        # TZ is UTC in scheduler cases: the naive local datetime is UTC
+        if self.tz != 'UTC':
+            # a naive local datetime is ambiguous in a repeated hour: read the instant itself
+            return str(ns_of_instant(c._job.next_run) - self.base)
+        # TZ is UTC: the naive local datetime of the public API is UTC
         us = (d - dtm.datetime(1970, 1, 1)) // dtm.timedelta(microseconds=1)
         return str(us * 1000 - self.base)
 
@@ -241,6 +245,9 @@ class SchedImpl:
                     if name in ('AttributeError', 'NotImplementedError'):
                         name = 'NotImplemented'
                     ret = f'ret err {name}'
+                if op not in ('yield', 'sleep', 'advance'):
+                    # coroutines started by this operation begin in the next loop iteration, before any timer
+                    await drain_tasks(loop)
                 blocks.append([ret, *self.out, *self._state()])
             return blocks
         finally:
